@@ -91,7 +91,8 @@ static void flags(void)
 	    a->read_data_is_posix_read ? 1 : 0, a->read_data_requested, a->file_count, pos);
 }
 
-static void r_begin(void) { nent = 0; cur = NULL; idx = pos = 0; a = NULL; entry = NULL; opened = 0; memset(E, 0, sizeof E); }
+static void r_begin(void) { alarm(3);    /* a mutated loop that never ends is a crash, not a hang */
+	nent = 0; cur = NULL; idx = pos = 0; a = NULL; entry = NULL; opened = 0; memset(E, 0, sizeof E); }
 
 static int parse_entry(char **w, int n)
 {
